@@ -273,7 +273,7 @@ class _Shard(threading.Thread):
                 rec["crash"] = {
                     "returncode": rc,
                     "signal": signal.Signals(sig).name if sig else None,
-                    "stderr": stderr_text[-6000:],
+                    "stderr": stderr_text[-60000:],
                 }
             self.results[culprit] = rec
             skip = culprit + 1
@@ -379,6 +379,12 @@ def memcheck_replay(rep, cases, label="memcheck", case_timeout=600.0, nshards=No
             own = [f for f in frames if f.startswith("dec") or "dmntk" in f]
             sig = "memcheck:%s:%s" % (m.group(1).replace(" ", "-"), (own[0] if own else (frames[0] if frames else "?"))[:80])
             sigs.setdefault(sig, block[:3000])
+    if meta["sanitizer_reports"] and not sigs:
+        # valgrind ended with its error exit code or wrote "==pid==" lines, but no report of a kind listed above was
+        # recognised: never drop that silently
+        text = "\n".join(meta["sanitizer_reports"])
+        if _re.search(r"ERROR SUMMARY: [1-9]|==\d+== (?!Memcheck|Copyright|Using|Command|For lists|$)\S", text):
+            sigs["memcheck:unclassified-report"] = text[:3000]
     for sig, block in sigs.items():
         rep.violation(sig, block, {"variant": "vg", "case": cases[0] if cases else None})
     for r in results:
